@@ -188,7 +188,7 @@ class QueueWorld(object):
     """One execution.  ``cfg`` keys (all optional except backend):
       backend: dict|disk|redis|cloud      backoff: name in BACKOFFS      n: recipients per message
       messages: number of messages the driver enqueues          prestored: number stored before start
-      script: list of driver actions after start, each ('enqueue', i) | ('flush',) | ('announce', i)
+      script: list of driver actions after start, each ('enqueue', i) | ('flush',) | ('announce', i) | ('restart',)
       store_pool / relay_pool: None or int        bounce: 'default'|'none'|'headers-only'
       bounce_queue: 'self'|'separate'             senders: {i: sender}   (e.g. '' for a null sender)
       menu: kwargs for outcome_menu               slow_ops: iterable of storage op names that may be slow
@@ -495,7 +495,7 @@ class QueueWorld(object):
         """What KF-C03-1 predicts get() to return: the delivered indexes of every marking round, each relative to
         the recipient list of its own round, concatenated and applied to the ORIGINAL list in one reverse-sorted
         pass (QueueStorage._remove_delivered_rcpts).  Only meaningful for disk/redis/cloud."""
-        if self.cfg['backend'] == 'dict':
+        if self.cfg['backend'] in ('dict', 'shelf'):
             return None
         flat = []
         for e in self.events:
@@ -577,6 +577,10 @@ class QueueWorld(object):
         b = self.cfg['backend']
         if b == 'dict':
             return DictStorage()
+        if b == 'shelf':
+            # the documented persistent variant of the dict backend: real shelve.Shelf objects over in-memory dicts
+            import shelve
+            return DictStorage(shelve.Shelf({}), shelve.Shelf({}))
         if b == 'disk':
             import slimta.diskstorage as ds
             from engine import memfs
@@ -652,27 +656,31 @@ class QueueWorld(object):
                 if cfg['bounce_queue'] == 'separate-real-started':
                     bq.start()
             factory = self.make_bounce_factory(cfg.get('bounce', 'default'))
-            q = Queue(store, relay, backoff=self.monitored_backoff(make_backoff(cfg.get('backoff', 'never'))),
-                      bounce_factory=factory, bounce_queue=bq,
-                      store_pool=cfg.get('store_pool'), relay_pool=cfg.get('relay_pool'))
-            self.q = q
-            if bq is None:
-                orig_enqueue = q.enqueue
+            def make_queue():
+                q = Queue(store, relay, backoff=self.monitored_backoff(make_backoff(cfg.get('backoff', 'never'))),
+                          bounce_factory=factory, bounce_queue=bq,
+                          store_pool=cfg.get('store_pool'), relay_pool=cfg.get('relay_pool'))
+                self.q = q
+                if bq is None:
+                    orig_enqueue = q.enqueue
 
-                def enqueue_spy(envelope):
-                    if isinstance(envelope, Bounce):
-                        self.on_bounce_enqueued(envelope)
-                    return orig_enqueue(envelope)
-                q.enqueue = enqueue_spy
-            else:
-                orig_enqueue = q.enqueue
+                    def enqueue_spy(envelope):
+                        if isinstance(envelope, Bounce):
+                            self.on_bounce_enqueued(envelope)
+                        return orig_enqueue(envelope)
+                    q.enqueue = enqueue_spy
+                else:
+                    orig_enqueue = q.enqueue
 
-                def enqueue_guard(envelope):
-                    if isinstance(envelope, Bounce):
-                        self.flag('bounce-not-handed-to-configured-queue', 'a bounce for %r was enqueued on the main queue although a '
-                                  'separate bounce queue is configured' % (envelope.recipients,))
-                    return orig_enqueue(envelope)
-                q.enqueue = enqueue_guard
+                    def enqueue_guard(envelope):
+                        if isinstance(envelope, Bounce):
+                            self.flag('bounce-not-handed-to-configured-queue', 'a bounce for %r was enqueued on the main queue although a '
+                                      'separate bounce queue is configured' % (envelope.recipients,))
+                        return orig_enqueue(envelope)
+                    q.enqueue = enqueue_guard
+                return q
+            self.make_queue = make_queue
+            q = make_queue()
             w.loop.state_key = self.state_key
             w.loop.before_timer = self.on_time_advance
             q.start()
@@ -691,6 +699,8 @@ class QueueWorld(object):
                         gevent.spawn(self.do_flush)
                     elif act[0] == 'announce':
                         self.do_announce(act[1])
+                    elif act[0] == 'restart':
+                        gevent.spawn(self.do_restart)
                     if pos + 1 < len(script):
                         w.add_event('driver:%s' % (script[pos + 1][0],), step(pos + 1))
                 return fire
@@ -724,6 +734,19 @@ class QueueWorld(object):
                             self._settle(led, r, 'exhausted', led.get('last_temp', {}).get(r, ('450', None)))
             return wait
         return backoff
+
+    def do_restart(self):
+        """the queue process is restarted in an orderly way while nothing is in flight: a new Queue object over the same
+        storage; what it knows it learns from load().  (Skipped while an attempt or a storage operation is running:
+        dying in the middle of those is C04's subject.)"""
+        if any(v > 0 for v in self.inflight.values()) or any(v > 0 for v in self.transit.values()) or self.q.active_ids:
+            self.ev('restart-skipped')
+            return
+        self.q.kill()
+        self.known.clear()
+        self.ev('restart')
+        q = self.make_queue()
+        q.start()
 
     def do_flush(self):
         rec = {'call': self.world.now, 'ret': None, 'steps_at_call': self.world.loop.steps, 'steps_at_ret': None,
@@ -830,7 +853,7 @@ class QueueWorld(object):
     def storage_fingerprint(self):
         b = self.cfg['backend']
         try:
-            if b == 'dict':
+            if b in ('dict', 'shelf'):
                 return tuple(sorted((k, v['attempts'], tuple(self.inner.env_db[k].recipients)) for k, v in self.inner.meta_db.items()))
             if b == 'disk':
                 return tuple(sorted((p, hash(v)) for p, v in self.fs.files.items()))
@@ -845,7 +868,7 @@ class QueueWorld(object):
     # ---- end of run
     def stored_ids(self):
         b = self.cfg['backend']
-        if b == 'dict':
+        if b in ('dict', 'shelf'):
             return set(self.inner.env_db) | set(self.inner.meta_db)
         if b == 'disk':
             return set(p.rsplit('/', 1)[1][:-4] for p in self.fs.files if p.endswith('.env') or p.endswith('.meta'))
